@@ -41,6 +41,79 @@ def getStr (env : Env) (x : String) : M Str :=
   | some (.tok t) => pure t.valueStr
   | _ => notModelled ("string variable " ++ x)
 
+/-- an index into a list kept in a local variable (`function.name`, `function.body`) -/
+def idxVal (k : Nat) : SVal := .tok { value := .int k }
+
+def getIdx (env : Env) (x : String) : M Nat :=
+  match env.lookup x with
+  | some (.tok { value := .int k, .. }) => pure k
+  | _ => notModelled ("index variable " ++ x)
+
+/-- `tokenizer.tokentype.T` by name -/
+def tokTypeOf (t : String) : Option TokType := TokType.all.find? (fun ty => ty.name == t)
+
+/-- the kinds with one string attribute, and its name -/
+def leafKind (kind : String) : Option (String × (Span → Str → Node)) :=
+  if kind = "reservedword" then some ("word", .reservedword)
+  else if kind = "operator" then some ("op", .operator)
+  else if kind = "pipe" then some ("pipe", .pipe)
+  else none
+
+/-! ### `for i in range(1, len(p))` loops that fill a list -/
+
+def testHolds (v : SVal) : ATest → Bool
+  | .isNode => v.isNode
+  | .isList => match v with | .nodes _ => true | _ => false
+  | .isToken => match v with | .tok _ => true | _ => false
+  | .ttypeEq t => match v, tokTypeOf t with | .tok tk, some ty => tk.is ty | _, _ => false
+
+/-- the first arm all of whose tests hold -/
+def findArmC (arms : List (List ATest × AElem)) (v : SVal) : Option AElem :=
+  match arms with
+  | [] => none
+  | (ts, e) :: rest => if ts.all (testHolds v) then some e else findArmC rest v
+
+/-- what the iteration for the slot value `v` appends -/
+def contrib (np : NestedParse) (arms : List (List ATest × AElem)) (v : SVal) : M (List Node) :=
+  match findArmC arms v with
+  | none => pure []
+  | some .skip => pure []
+  | some .nodeArg => match v with | .node n => pure [n] | _ => notModelled "append of a non-node"
+  | some .listArg => match v with | .nodes l => pure l | _ => notModelled "extend by a non-list"
+  | some .expand =>
+    match v with
+    | .tok t => do pure [← expandword np t]
+    | _ => M.foreign "AttributeError" "p.slice"
+  | some (.leaf kind attr) =>
+    match leafKind kind with
+    | some (a, c) =>
+      if a = attr then
+        -- `word=p[i]`: the value of the token (`str()` of it in the node; `p[i]` of an empty slot is None)
+        pure [c v.lexspan (match v with | .tok t => tvalStr t.value | _ => "None".toList)]
+      else notModelled ("attributes of " ++ kind)
+    | none => notModelled ("kind " ++ kind)
+
+/-- the loop: one contribution per slot, in order -/
+def collectFrom (np : NestedParse) (arms : List (List ATest × AElem)) :
+    List Node → List SVal → M (List Node)
+  | acc, [] => pure acc
+  | acc, a :: as => do
+    let c ← contrib np arms a
+    collectFrom np arms (acc ++ c) as
+
+/-- a string attribute of a node, by name -/
+def nodeStrAttr (n : Node) (attr : String) : Option Str :=
+  match n with
+  | .operator _ s => if attr = "op" then some s else none
+  | .reservedword _ s => if attr = "word" then some s else none
+  | .pipe _ s => if attr = "pipe" then some s else none
+  | _ => none
+
+/-- replace the first element `test` accepts -/
+def replaceFirstL (test : Node → Bool) (mk : Node → Node) : List Node → List Node
+  | [] => []
+  | n :: rest => if test n then mk n :: rest else n :: replaceFirstL test mk rest
+
 section
 variable (np : NestedParse) (f : String) (p : PCtx)
 
@@ -50,6 +123,10 @@ def evalNode (env : Env) : ANode → M Node
   | .expand i => do expandword np (← p.tokAt i)
   | .head x => do
     match (← getList env x).head? with
+    | some n => pure n
+    | none => M.foreign "IndexError" f
+  | .argHead i => do
+    match (← p.nodesAt i f).head? with
     | some n => pure n
     | none => M.foreign "IndexError" f
 
@@ -71,10 +148,22 @@ def evalSpan (env : Env) : ASpan → M Span
   | .lexspan i => pure (p.lexspan i)
   | .partsspan l => do partsspan (← evalList np f p env l)
   | .pair i j => pure ((p.lexspan i).1, (p.lexspan j).2)
+  | .lexspanEnd k => pure (p.lexspan (p.len - k))
+  | .ends l => do
+    let l ← evalList np f p env l
+    match l.head?, l.getLast? with
+    | some a, some b => pure ((← nodePos a).1, (← nodePos b).2)
+    | _, _ => M.foreign "IndexError" f
+  | .between a b => do
+    let a ← evalNode np f p env a
+    let b ← evalNode np f p env b
+    pure ((← nodePos a).1, (← nodePos b).2)
+  | .posOf a => do nodePos (← evalNode np f p env a)
 
 /-- a string-valued attribute -/
 def evalStr : AAttr → M Str
   | .tokval i => p.strAt i
+  | .tokvalEnd k => p.strAt (p.len - k)
   | .str s => pure s.toList
   | _ => notModelled "string attribute"
 
@@ -112,13 +201,6 @@ def partsKind (kind : String) : Option (Span → List Node → Node) :=
   else if kind = "while" then some .whileN else if kind = "until" then some .untilN
   else if kind = "case" then some .caseN else if kind = "pattern" then some .pattern
   else if kind = "command" then some .command else if kind = "unimplemented" then some .unimplemented
-  else none
-
-/-- the kinds with one string attribute, and its name -/
-def leafKind (kind : String) : Option (String × (Span → Str → Node)) :=
-  if kind = "reservedword" then some ("word", .reservedword)
-  else if kind = "operator" then some ("op", .operator)
-  else if kind = "pipe" then some ("pipe", .pipe)
   else none
 
 /-- `ast.node(kind=K, a₁=v₁, …, pos=s)`: the attributes are evaluated first, `pos` last -/
@@ -160,6 +242,16 @@ def mkNode (env : Env) (kind : String) (attrs : List (String × AAttr)) (pos : A
             pure (.compound sp l r)
           else notModelled "attributes of compound"
         | _ => notModelled "attributes of compound"
+      else if kind = "word" then
+        match attrs with
+        | [(a1, v1), (a2, v2)] =>
+          if a1 = "word" ∧ a2 = "parts" then do
+            let w ← evalStr p v1
+            let l ← evalListAttr np f p env v2
+            let sp ← evalSpan np f p env pos
+            pure (.word sp w l)
+          else notModelled "attributes of word"
+        | _ => notModelled "attributes of word"
       else if kind = "redirect" then
         match attrs with
         | [(a1, v1), (a2, v2), (a3, v3), (a4, v4)] =>
@@ -221,6 +313,69 @@ def exec (env : Env) : AStmt → M Env
       let sp ← evalSpan np f p env pos
       pure ((x, .node (c sp l)) :: env)
     | none => notModelled ("kind " ++ String.ofList w)
+  | .collect x arms => do
+    let l ← getList env x
+    let l' ← collectFrom np arms l p.args
+    pure ((x, .nodes l') :: env)
+  | .replaceFirst x kind attr val kind2 attr2 val2 => do
+    let l ← getList env x
+    match leafKind kind2 with
+    | some (a, c) =>
+      if a = attr2 then
+        pure ((x, .nodes (replaceFirstL
+          (fun n => n.kind == kind && nodeStrAttr n attr == some val.toList)
+          (fun n => c n.pos val2.toList) l)) :: env)
+      else notModelled ("attributes of " ++ kind2)
+    | none => notModelled ("kind " ++ kind2)
+  | .setLast v x => do
+    let l ← getList env x
+    if l.isEmpty then M.foreign "IndexError" f else pure ((v, idxVal (l.length - 1)) :: env)
+  | .setFirstKind v x kind => do
+    let l ← getList env x
+    if l.isEmpty then M.foreign "IndexError" f
+    else pure ((v, idxVal (match l.findIdx? (fun n => n.kind == kind) with
+      | some i => i
+      | none => l.length - 1)) :: env)
+  | .mkFunction y n b x => do
+    let l ← getList env x
+    let ni ← getIdx env n
+    let bi ← getIdx env b
+    let sp ← partsspan l
+    pure ((y, .node (.function sp ni bi l)) :: env)
+  | .flagIfAdd a b =>
+    -- the two flags of `flags.parser` the translated actions touch
+    if a = "CMDSUBST" ∧ b = "EOFTOKEN" then do
+      if (← get).ps.cmdsubst then modify fun l => { l with ps := { l.ps with eoftoken := true } }
+      pure env
+    else notModelled ("parser flags " ++ a ++ " " ++ b)
+  | .accept => pure (("%accept", .none) :: env)
+  | .prependPart x e => do
+    let n ← getNode env x
+    let e ← evalNode np f p env e
+    match n with
+    | .pipeline _ parts =>
+      let parts' := e :: parts
+      match parts'.head?, parts'.getLast? with
+      | some a, some b =>
+        pure ((x, .node (.pipeline ((← nodePos a).1, (← nodePos b).2) parts')) :: env)
+      | _, _ => M.foreign "IndexError" f
+    | _ => notModelled "insert into the parts of a node that is no pipeline"
+  | .pushRedir x kill => do
+    -- the model keeps the mutable part of a pending here-document redirect (its `pos`, later its
+    -- body) in the store, under the index the node carries; the stack holds (index, kill flag)
+    match ← getNode env x with
+    | .redirect pos i t (some (.word wp delim wps)) oa none none => do
+      let l ← get
+      let id := l.store.length
+      set { l with store := l.store ++ [({ pos := pos, delim := delim } : RedirCell)],
+                   redirstack := l.redirstack ++ [(id, kill)] }
+      pure ((x, .node (.redirect pos i t (some (.word wp delim wps)) oa none (some id))) :: env)
+    | _ => notModelled "redirstack.append of something else than a fresh here-document redirect"
+  | .gather => do
+    gatherheredocuments
+    pure env
+  | .assertLenArg i n => do
+    if (← p.nodesAt i f).length == n then pure env else M.foreign "AssertionError" f
   | .assertKind e kind => do
     let n ← evalNode np f p env e
     handleAssert (n.kind == kind)
@@ -248,9 +403,6 @@ def execs (env : Env) : List AStmt → M Env
     let env' ← exec np f p env s
     execs env' ss
 
-/-- `tokenizer.tokentype.T` by name -/
-def tokTypeOf (t : String) : Option TokType := TokType.all.find? (fun ty => ty.name == t)
-
 /-- conditions; `p.slice[i].ttype` of a non-token is an AttributeError (`PCtx.tokAt`) -/
 def evalCond (env : Env) : ACond → M Bool
   | .lenEq n => pure (p.len == n)
@@ -265,18 +417,36 @@ def evalCond (env : Env) : ACond → M Bool
     match tokTypeOf t with
     | some ty => do pure ((← p.tokAt i).is ty)
     | none => notModelled ("token type " ++ t)
+  | .ttypeEqEnd k t =>
+    match tokTypeOf t with
+    | some ty => do pure ((← p.tokAt (p.len - k)).is ty)
+    | none => notModelled ("token type " ++ t)
   | .or a b => do
     if ← evalCond env a then pure true else evalCond env b
+  | .and a b => do
+    if ← evalCond env a then evalCond env b else pure false
+  | .lenGtArg i n => do pure ((← p.nodesAt i f).length > n)
+  | .lenEqArg i n => do pure ((← p.nodesAt i f).length == n)
+  | .isNone i => pure (match p.slice i with | .none => true | _ => false)
+  | .kindEq i kind => do pure ((← p.nodeAt i f).kind == kind)
+  | .flag fl =>
+    if fl = "CMDSUBST" then do pure (← get).ps.cmdsubst
+    else if fl = "EOFTOKEN" then do pure (← get).ps.eoftoken
+    else notModelled ("parser flag " ++ fl)
+  | .atEofToken => do
+    let l ← get
+    pure (match l.eofToken with
+      | some e => decide ({ l.currentToken with pos := none } = e)
+      | none => false)
 
-/-- run a function body and read `p[0]` (None if never assigned); no translated action calls
-    `p.accept()` -/
+/-- run a function body and read `p[0]` (None if never assigned) and whether `p.accept()` was called -/
 def evalProg (env : Env) : AProg → M (SVal × Bool)
-  | .done => pure ((env.lookup "0").getD .none, false)
+  | .done => pure ((env.lookup "0").getD .none, (env.lookup "%accept").isSome)
   | .seq ss k => do
     let env' ← execs np f p env ss
     evalProg env' k
   | .ite c t e => do
-    if ← evalCond p env c then evalProg env t else evalProg env e
+    if ← evalCond f p env c then evalProg env t else evalProg env e
 
 end
 
